@@ -32,7 +32,8 @@ static int pool_bits() { i128 hmax = 0; for (const vf::RatV& v : vf::ratpool.v) 
 template<size_t n, size_t C> struct RHS { typedef Fastor::Tensor<Rat, n, C> type; static constexpr size_t cols = C; };
 template<size_t n> struct RHS<n, 0> { typedef Fastor::Tensor<Rat, n> type; static constexpr size_t cols = 1; };
 
-// FORM 0: tensors; 1: A an expression; 2: B an expression; 3: both (the four AbstractTensor overloads of binary_solve_op.h)
+// FORM 0: tensors; 1: A an expression; 2: B an expression; 3: both (the four AbstractTensor overloads of binary_solve_op.h);
+// 4: solve(trans(At), B) with At the stored transpose of A (a unary expression as the matrix)
 template<size_t n, size_t C, int STRAT, int FORM> void run_solve(unsigned seed, int fam) {
     using namespace Fastor;
     typedef typename RHS<n, C>::type TB; constexpr size_t c = RHS<n, C>::cols;
@@ -52,7 +53,8 @@ template<size_t n, size_t C, int STRAT, int FORM> void run_solve(unsigned seed, 
     if (FORM == 0) X = solve<ST<STRAT>::v>(A, B);
     else if (FORM == 1) X = solve<ST<STRAT>::v>(A + Z, B);
     else if (FORM == 2) X = solve<ST<STRAT>::v>(A, B + ZB);
-    else X = solve<ST<STRAT>::v>(A + Z, B + ZB);
+    else if (FORM == 3) X = solve<ST<STRAT>::v>(A + Z, B + ZB);
+    else { Tensor<Rat, n, n> At; for (size_t i = 0; i < n; ++i) for (size_t j = 0; j < n; ++j) At(j, i) = A(i, j); X = solve<ST<STRAT>::v>(trans(At), B); }
     std::string why;
     for (size_t i = 0; i < n * n && why.empty(); ++i) if (!(A.data()[i] == A0.data()[i])) why = "A-modified";
     for (size_t i = 0; i < n * c && why.empty(); ++i) if (!(B.data()[i] == B0.data()[i])) why = "B-modified";
